@@ -210,6 +210,14 @@ type c07Scenario struct {
 	// foreign: the parent context is not one of package context's own types, so every
 	// context derived from it costs a watcher goroutine until it is released
 	foreign bool
+	// errEach: the consumer asks Err() after every Scan (a read-only accessor: it must answer
+	// nil while the scan is under way and must not influence it)
+	errEach bool
+	// cause: the context is cancelled with a cause (context.WithCancelCause); Err must still
+	// report the context's error, not the cause
+	cause bool
+	// filters: always-true filter callbacks are installed, so the decoders' filter path runs
+	filters bool
 }
 
 // c07ForeignCtx is a cancellable context implemented outside package context.
@@ -322,6 +330,10 @@ func c07Run(res *fw.Result, in c07Input, sc c07Scenario, key string) {
 		}
 	}
 	ctx, cancel := context.WithCancel(context.Background())
+	if sc.cause {
+		cctx, ccancel := context.WithCancelCause(context.Background())
+		ctx, cancel = cctx, func() { ccancel(errors.New("verif: service is shutting down")) }
+	}
 	if sc.foreign {
 		fc := &c07ForeignCtx{Context: context.Background(), done: make(chan struct{})}
 		ctx, cancel = fc, fc.cancel
@@ -391,6 +403,11 @@ func c07Run(res *fw.Result, in c07Input, sc c07Scenario, key string) {
 	var ps *osmpbf.Scanner
 	if sc.target == "pbf" {
 		ps = osmpbf.New(ctx, rd, sc.procs)
+		if sc.filters {
+			ps.FilterNode = func(*osm.Node) bool { return true }
+			ps.FilterWay = func(*osm.Way) bool { return true }
+			ps.FilterRelation = func(*osm.Relation) bool { return true }
+		}
 		s = ps
 	} else {
 		s = osmxml.New(ctx, rd)
@@ -416,6 +433,9 @@ func c07Run(res *fw.Result, in c07Input, sc c07Scenario, key string) {
 			break
 		}
 		delivered++
+		if sc.errEach {
+			hist.do(0, mk("err"), func() c07Out { return c07Out{Err: c07ErrClass(s.Err())} })
+		}
 		if sc.slowCons {
 			time.Sleep(300 * time.Microsecond)
 		}
@@ -761,8 +781,12 @@ func c07Exec(c fw.Case) *fw.Result {
 		if c.Int("allk") == 1 && sc.stop == "close" {
 			foreigns = []bool{false, true}
 		}
+		bits := c.Seed>>7 + uint64(ki)*3
+		sc.errEach = bits%3 == 0
+		sc.cause = (bits>>2)%2 == 0 && !strings.HasPrefix(sc.stop, "close") && sc.stop != "none"
+		sc.filters = (bits>>4)%2 == 0
 		for _, fo := range foreigns {
-			sc.foreign = fo
+			sc.foreign = fo && !sc.cause
 			key := fmt.Sprintf("C07/%s/%s", target, sc.stop)
 			if sc.faultAt > 0 {
 				key += "/fault"
@@ -775,7 +799,7 @@ func c07Exec(c fw.Case) *fw.Result {
 			case k >= N:
 				kc = "end"
 			}
-			res.Eval(fmt.Sprintf("%s/%s/procs%d/%s/post%s/f%v/foreign%v", target, sc.stop, sc.procs, kc, sc.post, sc.faultAt > 0, sc.foreign))
+			res.Eval(fmt.Sprintf("%s/%s/procs%d/%s/post%s/f%v/foreign%v/err%v/cause%v/filt%v", target, sc.stop, sc.procs, kc, sc.post, sc.faultAt > 0, sc.foreign, sc.errEach, sc.cause, sc.filters))
 		}
 	}
 	res.Sample = map[string]any{"target": target, "size": c.Str("size"), "objects": N, "procs": sc.procs, "stop": sc.stop, "post": sc.post, "k_values": len(ks), "fault_at_read_call": sc.faultAt}
@@ -892,7 +916,7 @@ func init() {
 		ID:    "C07",
 		Level: "fault_enumeration",
 		Rule: "call histories Header? Scan×k stop post-ops for EVERY k=0..N+1 of small PBF (with and without header block) and XML inputs × stop kind {Close, cancel from the scanning goroutine, cancel from a second goroutine overlapping further Scans, cancel immediately followed by Close with a slow reader} × decoders {1,2,4,16} (race build), checked for linearizability against a sequential scanner model with porcupine; " +
-			"1000-block inputs with a counting reader for the bytes consumed after the stop; cancellation from the reader goroutine's Read callback or a timer with a slow consumer under the race detector; histories with an injected I/O error (plain, or wrapping io.EOF as a lost connection does); parent contexts implemented outside package context with Close / run-to-the-end stops, after which no context-watcher goroutine may be left; a rejected first block followed by Close; endless input with a logical byte budget. " +
+			"1000-block inputs with a counting reader for the bytes consumed after the stop; cancellation from the reader goroutine's Read callback or a timer with a slow consumer under the race detector; histories with an injected I/O error (plain, or wrapping io.EOF as a lost connection does); Err() asked after every Scan in a third of the histories; contexts cancelled with a cause (WithCancelCause); always-true filter callbacks installed in half of the PBF histories (the decoders' filter path under the race detector); parent contexts implemented outside package context with Close / run-to-the-end stops, after which no context-watcher goroutine may be left; a rejected first block followed by Close; endless input with a logical byte budget. " +
 			"Signature = (target, stop kind, decoders, stop-position class, post-ops, fault injected).",
 		Assumptions: []string{
 			"after a complete scan followed by Close/cancel, Err may be nil or the closed/context error (both satisfy the stated precedence)",
